@@ -17,7 +17,7 @@ linear count.
 from . import sym, linear
 from .facts import subterms
 
-LOOP_STMTS = ('ForStmt', 'WhileStmt', 'DoStmt')
+LOOP_STMTS = ('ForStmt', 'WhileStmt', 'DoStmt', 'CXXForRangeStmt')
 
 
 class Loop:
@@ -222,7 +222,7 @@ def counted(lp):
     # `<=` / `>=` run one more cycle than `<` / `>` / `!=`: fold into the bound as B + s
     c.strict = op in ('<', '>', '!=')
     c.why = '%s loop, counter %s by one per cycle while (counter %s bound)' % (
-        {'ForStmt': 'for', 'WhileStmt': 'while', 'DoStmt': 'do-while'}[lp.kind], 'up' if step == 1 else 'down', op)
+        {'ForStmt': 'for', 'WhileStmt': 'while', 'DoStmt': 'do-while', 'CXXForRangeStmt': 'range-for'}[lp.kind], 'up' if step == 1 else 'down', op)
     return c
 
 
